@@ -14,7 +14,7 @@ RULE = ('one case = one scripted server presenting chosen public-key blobs durin
         'signed by RSA (1024..8192), Ed25519 and ECDSA (P-256/384/521) CAs; text, verbose and JSON.  Oracle: reported size == bit length of the presented modulus (independent blob parser), CA type/size likewise, fingerprints == '
         'hashlib SHA-256/MD5 of the presented blob (one RSA-family entry, none for certificates), differential threshold oracle on the notes relative to the baseline.  Non-trivial: probe answered and a size or fingerprint compared; '
         'distinct = distinct (blob set, name list, rendering)')
-REQUIRED = {'certificate_field_variants': 10, 'probes_refused_after_small_key': 6, 'cert_beside_plain_rsa': 10, 'plain_beside_cert_checks': 20, 'sizes_compared': 40, 'fingerprints_compared': 40, 'threshold_checks': 40, 'below_2048': 5, 'warn_band': 5, 'ca_checks': 8, 'json_runs': 10}
+REQUIRED = {'two_certificates_one_server': 5, 'certificate_field_variants': 10, 'probes_refused_after_small_key': 6, 'cert_beside_plain_rsa': 10, 'plain_beside_cert_checks': 20, 'sizes_compared': 40, 'fingerprints_compared': 40, 'threshold_checks': 40, 'below_2048': 5, 'warn_band': 5, 'ca_checks': 8, 'json_runs': 10}
 ASSUMPTIONS = ['moduli are multiples of 64 bits as the quantifier says; sizes that are not a multiple of 16 bits form a separate sub-family run in the thorough tier only (the tool measures whole bytes)',
                'threshold oracle is differential (notes at size B minus notes at 4096 bits for the same names), so note wording is not frozen',
                'for certificates both the host key and the CA key are rated; equal warning texts may be merged by the tool, so ">= 1 extra warning" is demanded, not a count']
@@ -58,6 +58,10 @@ def cases(tier, seed):
     for i, (first, bits) in enumerate([('rsa', 1024), ('rsa', 2048), ('rsa-cert', 1024), ('rsa-cert', 2048), ('rsa', 3072)]):
         for rnd in (('text', 'json') if tier == 'thorough' else (['json', 'text'][i % 2],)):
             cs.append({'kind': 'partial', 'first': first, 'bits': bits, 'render': rnd})
+    # two certificates on one server, signed by CAs of the same type but different sizes (and an Ed25519 CA beside an RSA CA): each certificate reports its own CA
+    for i, (ca1, ca2) in enumerate([(4096, 1024), (1024, 4096), (2048, 3072), (3072, 2048), (4096, 'ed25519'), ('ed25519', 1024)]):
+        for rnd in (('text', 'json') if tier == 'thorough' else (['json', 'text'][i % 2],)):
+            cs.append({'kind': 'twocerts', 'ca_rsa_cert': ca1, 'ca_ed_cert': ca2, 'render': rnd})
     # plain RSA names and RSA certificates under each of their three names side by side, with different keys: fingerprints are those of the plain key, sizes those of each key
     CERTS = ['ssh-rsa-cert-v01@openssh.com', 'rsa-sha2-256-cert-v01@openssh.com', 'rsa-sha2-512-cert-v01@openssh.com']
     i = 0
@@ -292,6 +296,38 @@ def run_certmix(c):
     return viol, counters
 
 
+def run_twocerts(c):
+    def ca(x):
+        return {'type': 'ed25519'} if x == 'ed25519' else {'type': 'rsa', 'bits': x}
+    names = ['ssh-rsa-cert-v01@openssh.com', 'ssh-ed25519-cert-v01@openssh.com']
+    hk = {names[0]: {'type': 'rsa-cert', 'bits': 3072, 'ca': ca(c['ca_rsa_cert'])}, names[1]: {'type': 'ed25519-cert', 'ca': ca(c['ca_ed_cert'])}}
+    script = {'banner': 'SSH-2.0-OpenSSH_9.1', 'kex': audit.sym_kex(['curve25519-sha256'], names, ['aes128-ctr'], ['hmac-sha2-256']), 'hostkeys': hk, 'gex': None}
+    r, res, fps, p = observe(script, c['render'], names)
+    viol, counters = [], {}
+    if res is None:
+        viol.append(_v('C11/audit-failed:status%s' % r.status, 'audit did not complete', out=r.out[-300:]))
+        return viol, counters
+    if c['render'] == 'json':
+        counters['json_runs'] = 1
+    counters['two_certificates_one_server'] = 1
+    for n, want in ((names[0], c['ca_rsa_cert']), (names[1], c['ca_ed_cert'])):
+        o = res.get(n)
+        if o is None:
+            viol.append(_v('C11/key-missing', 'advertised host key absent from the report', name=n))
+            continue
+        counters['sizes_compared'] = counters.get('sizes_compared', 0) + 1
+        want_bits = 256 if want == 'ed25519' else want
+        if o['ca_bits'] != want_bits:
+            viol.append(_v('C11/ca-size-wrong:second-certificate', 'reported CA key size differs from the CA of the certificate presented under that name', name=n, got=o['ca_bits'], want=want_bits, other_ca=[c['ca_rsa_cert'], c['ca_ed_cert']]))
+        small = [t for t in o['notes']['fail'] if 'CA key modulus' in t]
+        warn2k = [t for t in o['notes']['warn'] if '2048-bit modulus' in t]
+        want_fail = want != 'ed25519' and want < 2048
+        want_warn = want != 'ed25519' and 2048 <= want < 3072
+        if bool(small) != want_fail or bool(warn2k) != want_warn:
+            viol.append(_v('C11/ca-rating-wrong:second-certificate', 'the CA size notes of a certificate do not follow its own CA', name=n, ca=want, notes=o['notes']))
+    return viol, counters
+
+
 def run_partial(c):
     first_names = ['rsa-sha2-512', 'ssh-rsa'] if c['first'] == 'rsa' else ['ssh-rsa-cert-v01@openssh.com']
     others = ['ssh-ed25519', 'ssh-ed448', 'ecdsa-sha2-nistp256']
@@ -343,7 +379,7 @@ def run_fixed(c):
 
 
 def run_case(c):
-    fn = {'rsa': run_rsa, 'cert': run_cert, 'fixed': run_fixed, 'certmix': run_certmix, 'partial': run_partial}[c['kind']]
+    fn = {'rsa': run_rsa, 'cert': run_cert, 'fixed': run_fixed, 'certmix': run_certmix, 'partial': run_partial, 'twocerts': run_twocerts}[c['kind']]
     viol, counters = fn(c)
     if viol is None:
         return {'verdict': 'inconclusive', 'why': counters.get('why')}
